@@ -289,6 +289,37 @@ def apply_patch(img: bytearray, kind, rng, fam: str, info: dict):
                         img[o + 32:o + 36] = struct.pack("<I", 0xFFFFFF00)
                         img[o + 36] = rng.choice([0, 1, 2, 3, 4])
                         put16(img, o + 40, 0)
+            elif kind == "key-interleave":
+                # S97: the work per patch is bounded by the number of DISTINCT partials its 88 keys name. Two partials named
+                # alternately by all 88 keys, all four sample slots of both pointing at one sample whose chain runs on through
+                # 20000 free clusters, and all 32 patch slots of every performance naming copies of that patch.
+                ch = rng.choice(list(info["chains"].values()))
+                n = 20000
+                first = max(used) + 9
+                if first + n < 65536 - 16:
+                    put16(img, FAT + 2 * ch[-1], first)
+                    for j in range(n):
+                        put16(img, FAT + 2 * (first + j), first + j + 1 if j + 1 < n else 0xFFF8)
+                big = next((k for k in range(6) if img[GR.DIR["samp"] + 32 * k] != 0), 0)
+                put16(img, GR.DIR["samp"] + 32 * big + 28, ch[0])
+                pd, pp = GR.DIR["part"], GR.PAR["part"][0]
+                if img[pd + 32] == 0:       # make sure there is a second partial: a copy of the first
+                    img[pd + 32:pd + 64] = img[pd:pd + 32]
+                    img[pp + 128:pp + 256] = img[pp:pp + 128]
+                for q in (0, 1):
+                    for o in (16, 32, 48, 64):
+                        put16(img, pp + 128 * q + o, big)
+                qd, qp = GR.DIR["patch"], GR.PAR["patch"][0]
+                for j in range(88):
+                    put16(img, qp + 256 + 2 * j, j % 2)
+                for c in range(1, 32):
+                    img[qd + 32 * c:qd + 32 * c + 32] = img[qd:qd + 32]
+                    img[qp + 512 * c:qp + 512 * c + 512] = img[qp:qp + 512]
+                fp = GR.PAR["perf"][0]
+                for f in range(4):
+                    if img[GR.DIR["perf"] + 32 * f] != 0:
+                        for j in range(32):
+                            put16(img, fp + 512 * f + 256 + 2 * j, j)
             elif kind == "truncate":
                 del img[rng.randrange(1, len(img)):]
             elif kind == "burst":
@@ -390,7 +421,7 @@ def make_specs(ctx, rng, full: bool):
     for k in range(2 if not full else 8):
         add(family="rand", size=0, prefix="sparse-roland", noise=rng.choice([0, 200, 5000, 40000]))
     akai_kinds = ["phantom-chain", "truncate", "sat-special", "sat-link", "sat-2cycle", "sat-noise", "psize", "volentry", "volstart", "dir", "filehdr", "burst"]
-    rol_kinds = ["phantom-chain", "truncate", "fat-special", "fat-link", "fat-2cycle", "fat-selfloop", "fat-noise", "fat-longcycle", "counts", "ptrlist", "partial", "samplepar", "sampledir", "burst"]
+    rol_kinds = ["key-interleave", "phantom-chain", "truncate", "fat-special", "fat-link", "fat-2cycle", "fat-selfloop", "fat-noise", "fat-longcycle", "counts", "ptrlist", "partial", "samplepar", "sampledir", "burst"]
     for pv in (0, 1, 0xFFFF):
         for pw in ("first", "last"):
             add(family="akai", patches=["psize"], pvalue=pv, pwhich=pw)
@@ -403,7 +434,7 @@ def make_specs(ctx, rng, full: bool):
     rreps = ctx.n(2, 30)
     for kind in rol_kinds:
         for _ in range(rreps):
-            add(family="roland", patches=[kind] * (1 if kind in ("phantom-chain", "truncate") else rng.choice([1, 1, 2, 3])))
+            add(family="roland", patches=[kind] * (1 if kind in ("phantom-chain", "truncate", "key-interleave") else rng.choice([1, 1, 2, 3])))
     for _ in range(ctx.n(6, 120)):
         add(family="roland", patches=[rng.choice(rol_kinds) for _ in range(rng.randint(1, 3))])
     for kind, ns in (("clean", [0]), ("long-blank-title", [300, 3000, 6000]), ("long-hyphen-title", [300, 3000, 6000]), ("long-dot-title", [300, 3000, 6000]),
@@ -450,7 +481,9 @@ def run(ctx, rep: Report, deep: bool = False):
             mp = os.path.join(d, main)
             # kilobyte-long cue lines are left to the oracle (the model's character-list regex matchers are slow on them)
             long_cue = spec["family"] == "cdda" and spec.get("n", 0) > 100  # also: names beyond the file-system limit fail with OSError in the real tool only
-            tie = ctx.model_available and not long_cue and (spec["id"] % (1 if spec["family"] != "roland" else 2) == 0)
+            # the 20000-cluster phantom chain of `key-interleave` is left to the oracle as well (the model walks lists)
+            heavy = "key-interleave" in spec.get("patches", [])
+            tie = ctx.model_available and not long_cue and not heavy and (spec["id"] % (1 if spec["family"] != "roland" else 2) == 0)
             meta[spec["id"]] = dict(spec=spec, size=size, dir=d, main=mp, tie=tie)
             pool.submit(spec["id"], (lambda mp=mp, d=d, tie=tie: tool_run(mp, d, tie)), cpu_bound(size), mem_bound(size), 4 * cpu_bound(size) + 20)
         results = pool.drain()
